@@ -6,7 +6,7 @@ From Coq Require Import ZArith List Bool Lia.
 Import ListNotations.
 Require Import Base.Py Base.ZList Model.Splice Model.Fam_mp4.
 Require Import Proofs.Fam_mp4_tree Proofs.Fam_mp4_parse Proofs.Fam_mp4_steps Proofs.Fam_mp4_agree Proofs.Fam_mp4_surgery
-  Proofs.Fam_mp4_existing Proofs.Fam_mp4_main Proofs.Fam_mp4_c10.
+  Proofs.Fam_mp4_existing Proofs.Fam_mp4_main Proofs.Fam_mp4_new Proofs.Fam_mp4_c10.
 Open Scope Z_scope.
 
 (* A strict description of a file (atoms tile their parents at every level; 32-bit / 64-bit / to-EOF size forms) is exactly
@@ -65,6 +65,35 @@ Theorem C10_offsets_follow_data f ilst_data cb f' atoms path :
     delta = zlen (new_region cb f off old ilst_data) - old.
 Proof. exact (c10_offsets_follow_data f ilst_data cb f' atoms path). Qed.
 Print Assumptions C10_offsets_follow_data.
+
+(* The file has no moov.udta.meta.ilst yet: [udta]meta(hdlr, ilst, free) is inserted at the data start `off` of moov.udta, or of
+   moov when there is no udta.  Same statement with an empty region; the ancestors (moov [, udta]) carry their old length + delta.
+   Precondition found by the proof: no offset table starts exactly at the insertion point (such a table would be the FIRST
+   child of moov / udta; mutagen compares `atom.offset > offset` and would not see that it moved). *)
+Theorem C10_offsets_follow_data_new f ilst_data cb f' atoms path last rest :
+  mp4_wf f = true -> mp4_atoms f = Ok atoms -> mp4_path atoms ILST_PATH = None ->
+  mp4_insert_path atoms = Some path -> rev path = last :: rest ->
+  (forall T, In T (all_tabs atoms) -> ma_off T <> ma_off last + ma_hdr last) ->
+  mp4_save f ilst_data cb = Ok f' ->
+  let off := ma_off last + ma_hdr last in
+  let data := mp4_new_insert cb f last ilst_data in
+  let delta := zlen f' - zlen f in
+  let np := mp4_newpos off 0 delta in
+  0 <= off <= zlen f /\ delta = zlen data /\
+  (forall T, In T (mp4_stco_list atoms) ->
+     tab_entries 4 f' (np (ma_off T)) = map (mp4_shift off delta) (tab_entries 4 f (ma_off T))) /\
+  (forall T, In T (mp4_co64_list atoms) ->
+     tab_entries 8 f' (np (ma_off T)) = map (mp4_shift off delta) (tab_entries 8 f (ma_off T))) /\
+  (forall T, In T (mp4_tfhd_list atoms) -> tfhd_flag f (ma_off T) = true ->
+     tfhd_flag f' (np (ma_off T)) = true /\
+     tfhd_base f' (np (ma_off T)) = mp4_shift off delta (tfhd_base f (ma_off T))) /\
+  (forall L, In L (mp4_flat atoms) -> ma_kids L = None -> is_table_name L = false ->
+     (ma_off L + ma_len L <= off \/ off <= ma_off L) ->
+     agree f (ma_off L) f' (np (ma_off L)) (ma_len L)) /\
+  agree data 0 f' off (zlen data) /\
+  (forall A, In A path -> anc_updated f delta f' A).
+Proof. exact (c10_offsets_follow_data_new f ilst_data cb f' atoms path last rest). Qed.
+Print Assumptions C10_offsets_follow_data_new.
 
 (* The chunk an offset addresses: same bytes before and after, and the rewritten entry is exactly where they now are. *)
 Theorem C10_chunk_bytes f ilst_data cb f' atoms path :
@@ -133,6 +162,24 @@ Example C10_ex_offsets_grow : ex_moved ex_file ex_ilst_big 9 = true.
 Proof. vm_compute. reflexivity. Qed.
 Example C10_ex_offsets_shrink : ex_moved ex_file mp4_empty_ilst 0 = true.
 Proof. vm_compute. reflexivity. Qed.
+
+
+(* a file without udta / without meta / without ilst: the new atoms are created, every offset follows, the result is well-formed *)
+Definition ex_new (udta : Z) (meta : list mp4_mitem) (moov_first : bool) : list Z :=
+  mp4_build (mkLayout moov_first udta false (-1) meta ex_ilst_small
+    [mkTrak false true [0; 10; 31]; mkTrak true true [5; 32]] [mkMoof true 3 0; mkMoof true 7 2] (mp4_pattern 32 1) 0 0 false).
+Definition ex_new_check (f : list Z) : bool :=
+  mp4_wf f &&
+  match mp4_atoms f with
+  | Ok atoms => match mp4_path atoms ILST_PATH with None => true | Some _ => false end
+  | _ => false end &&
+  match mp4_save f ex_ilst_big (mp4_cb_const 7) with Ok f' => mp4_wf f' && negb (zlen f' =? zlen f) | _ => false end.
+Example C10_ex_new_no_udta : ex_new_check (ex_new 0 [] true) = true /\ ex_new_check (ex_new 0 [] false) = true.
+Proof. vm_compute. split; reflexivity. Qed.
+Example C10_ex_new_no_meta : ex_new_check (ex_new 1 [] true) = true /\ ex_new_check (ex_new 2 [MHdlr] false) = true.
+Proof. vm_compute. split; reflexivity. Qed.
+Example C10_ex_new_offsets : ex_moved (ex_new 0 [] true) ex_ilst_big 9 = true /\ ex_moved (ex_new 2 [MHdlr; MFree 8] true) ex_ilst_big 0 = true.
+Proof. vm_compute. split; reflexivity. Qed.
 
 (* ------------------------------------------------------------------ regression witnesses (defects fixed in /repo) *)
 (* (1) every top-level moof's tfhd is patched, not only the first (C10_ex_offsets_grow has two moof atoms) *)
